@@ -217,3 +217,118 @@ Proof.
   - discriminate.
   - exfalso. apply H; [|reflexivity]. unfold load_fuel. cbn [length]. lia.
 Qed.
+
+(* ---------- appending a revision: reload and re-loadability ---------- *)
+(* A layout whose sections form a proper Prev chain from startxref (no cycle, no XRefStm in the newest trailer). *)
+Definition chain_layout (L : layout) (s0 : section) (c : list (Z * section)) : Prop :=
+  (0 <= l_startxref L <= l_buflen L)%Z /\
+  assocZ (l_secs L) (l_startxref L) = Some s0 /\
+  dict_get (dict_swap_remove (s_trailer s0) K_Prev) K_XRefStm = None /\
+  is_chain L (dict_get (s_trailer s0) K_Prev) c /\
+  NoDup (l_startxref L :: map fst c).
+
+(* the merged table of a chain layout: newest section first *)
+Definition chain_tabs (s0 : section) (c : list (Z * section)) : list xmap :=
+  map (fun s => parse_entries (s_stream s) (s_raw s)) (s0 :: map snd c).
+
+Theorem read_xref_chain : forall L s0 c fuel,
+  chain_layout L s0 c -> (length c <= fuel)%nat ->
+  (xt_max_id (xr_entries (fold_left xmerge (map (fun ps => sec_xref (snd ps)) c) (sec_xref s0))) + 1 < 4294967296)%N ->
+  exists m, read_xref fuel L = LOk m /\
+            m_trailer m = dict_swap_remove (s_trailer s0) K_Prev /\
+            m_start m = Z.to_N (l_startxref L) /\
+            xr_stream (m_xref m) = s_stream s0 /\
+            forall k, xget (xr_entries (m_xref m)) k = first_def (chain_tabs s0 c) k.
+Proof.
+  intros L s0 c fuel (Hb & Hs & Hstm & Hc & Hnd) Hfuel Hmax.
+  unfold read_xref.
+  replace ((l_startxref L <? 0)%Z || (l_buflen L <? l_startxref L)%Z) with false
+    by (symmetry; apply orb_false_iff; split; apply Z.ltb_ge; lia).
+  unfold sec_at. rewrite Hs.
+  inversion Hnd as [|? ? Hnotin Hnd']; subst.
+  rewrite (prev_loop_chain L c fuel (sec_xref s0) _ [] _ Hc Hstm Hnd' (fun _ _ H => H) Hfuel).
+  apply N.ltb_lt in Hmax. rewrite N.leb_antisym, Hmax. cbn [negb].
+  eexists. split; [reflexivity|]. cbn [m_trailer m_start m_xref xr_stream xr_entries].
+  split; [reflexivity|]. split; [reflexivity|]. split.
+  - rewrite fold_xmerge_stream. reflexivity.
+  - intro k. rewrite merge_chain_latest. unfold chain_tabs. cbn [map].
+    rewrite !map_map. reflexivity.
+Qed.
+
+(* appending one revision: a new section at a fresh offset whose Prev is the old startxref *)
+Definition extend_layout (L : layout) (off : Z) (sec : section) (objs : list (N * placed)) (len : Z) : layout :=
+  {| l_buflen := len; l_startxref := off; l_secs := (off, sec) :: l_secs L; l_objs := objs ++ l_objs L |}.
+
+Lemma is_chain_extend L off sec objs len : forall c prev,
+  (l_buflen L <= len)%Z -> ~ In off (map fst c) ->
+  is_chain L prev c -> is_chain (extend_layout L off sec objs len) prev c.
+Proof.
+  induction c as [|[p s] c IH]; intros prev Hlen Hoff Hc; cbn [is_chain] in *; [exact Hc|].
+  destruct Hc as (-> & Hp & Hs & Hc). cbn [map fst In] in Hoff.
+  split; [reflexivity|]. split; [cbn [extend_layout l_buflen]; lia|]. split.
+  - cbn [extend_layout l_secs assocZ]. destruct (off =? p)%Z eqn:E; [|exact Hs].
+    apply Z.eqb_eq in E. exfalso. apply Hoff. left. symmetry. exact E.
+  - apply IH; [exact Hlen| |exact Hc]. intro H. apply Hoff. right. exact H.
+Qed.
+
+(* re-loadability: the extended layout is again a chain layout, one section longer *)
+Theorem extend_chain_layout : forall L s0 c off sec objs len,
+  chain_layout L s0 c ->
+  (l_buflen L < off <= len)%Z ->
+  (forall p, In p (l_startxref L :: map fst c) -> (p <= l_buflen L)%Z) ->
+  dict_get (s_trailer sec) K_Prev = Some (OInt (l_startxref L)) ->
+  dict_get (dict_swap_remove (s_trailer sec) K_Prev) K_XRefStm = None ->
+  chain_layout (extend_layout L off sec objs len) sec ((l_startxref L, s0) :: c).
+Proof.
+  intros L s0 c off sec objs len (Hb & Hs & Hstm & Hc & Hnd) Hoff Hold Hprev Hx.
+  assert (Hfresh : ~ In off (l_startxref L :: map fst c)).
+  { intro H. specialize (Hold off H). lia. }
+  unfold chain_layout. cbn [extend_layout l_startxref l_buflen l_secs assocZ].
+  split; [lia|]. rewrite Z.eqb_refl. split; [reflexivity|]. split; [exact Hx|]. split.
+  - cbn [is_chain]. split; [exact Hprev|]. split; [cbn [extend_layout l_buflen]; lia|]. split.
+    + cbn [extend_layout l_secs assocZ]. destruct (off =? l_startxref L)%Z eqn:E; [|exact Hs].
+      apply Z.eqb_eq in E. exfalso. apply Hfresh. left. symmetry. exact E.
+    + apply is_chain_extend; [lia| |exact Hc]. intro H. apply Hfresh. right. exact H.
+  - cbn [map fst]. constructor; [exact Hfresh|exact Hnd].
+Qed.
+
+(* inc_save_reload at the level of the cross-reference table: after appending a revision the merged
+   table gives every object number the entry of the NEW section if it has one, and otherwise exactly
+   the entry the reader found before the update. *)
+Theorem reload_after_append : forall L s0 c off sec objs len m fuel,
+  chain_layout L s0 c ->
+  read_xref fuel L = LOk m -> (length c <= fuel)%nat ->
+  (l_buflen L < off <= len)%Z ->
+  (forall p, In p (l_startxref L :: map fst c) -> (p <= l_buflen L)%Z) ->
+  dict_get (s_trailer sec) K_Prev = Some (OInt (l_startxref L)) ->
+  dict_get (dict_swap_remove (s_trailer sec) K_Prev) K_XRefStm = None ->
+  (xt_max_id (xr_entries (fold_left xmerge (map (fun ps => sec_xref (snd ps)) ((l_startxref L, s0) :: c)) (sec_xref sec))) + 1
+     < 4294967296)%N ->
+  exists m', read_xref (S fuel) (extend_layout L off sec objs len) = LOk m' /\
+             m_trailer m' = dict_swap_remove (s_trailer sec) K_Prev /\
+             m_start m' = Z.to_N off /\
+             forall k, xget (xr_entries (m_xref m')) k =
+                       match xget (parse_entries (s_stream sec) (s_raw sec)) k with
+                       | Some e => Some e
+                       | None => xget (xr_entries (m_xref m)) k
+                       end.
+Proof.
+  intros L s0 c off sec objs len m fuel HL Hread Hfuel Hoff Hold Hprev Hx Hmax.
+  pose proof (extend_chain_layout L s0 c off sec objs len HL Hoff Hold Hprev Hx) as HL'.
+  destruct (read_xref_chain _ _ _ (S fuel) HL' ltac:(cbn [length]; lia) Hmax) as (m' & Hr' & Ht' & Hs' & _ & He').
+  exists m'. split; [exact Hr'|]. split; [exact Ht'|]. split; [exact Hs'|].
+  intro k. rewrite He'. unfold chain_tabs. cbn [map first_def snd].
+  destruct (xget (parse_entries (s_stream sec) (s_raw sec)) k); [reflexivity|].
+  (* the old run *)
+  destruct HL as (Hb & Hs & Hstm & Hc & Hnd).
+  unfold read_xref in Hread.
+  replace ((l_startxref L <? 0)%Z || (l_buflen L <? l_startxref L)%Z) with false in Hread
+    by (symmetry; apply orb_false_iff; split; apply Z.ltb_ge; lia).
+  unfold sec_at in Hread. rewrite Hs in Hread.
+  inversion Hnd as [|? ? Hnotin Hnd']; subst.
+  rewrite (prev_loop_chain L c fuel (sec_xref s0) _ [] _ Hc Hstm Hnd' (fun _ _ H => H) Hfuel) in Hread.
+  destruct (4294967296 <=? xt_max_id (xr_entries (fold_left xmerge (map (fun ps => sec_xref (snd ps)) c) (sec_xref s0))) + 1)%N;
+    [discriminate|].
+  inversion Hread; subst m. cbn [m_xref xr_entries].
+  rewrite merge_chain_latest. cbn [map first_def]. rewrite !map_map. reflexivity.
+Qed.
